@@ -417,7 +417,9 @@ impl RowIdSequence {
                     }
                     ids.mask(mask);
                     let mut bitmap_iter = bitmap.iter();
-                    let mut bitmap_iter_pos = 0;
+                    // positions are counted from the start of the whole sequence, the bitmap only
+                    // covers this segment
+                    let mut bitmap_iter_pos = offset_start;
                     let mut holes_passed = 0;
                     ranges.extend(GroupingIterator::new(unsafe { ids.into_addr_iter() }.map(
                         |addr| {
